@@ -409,6 +409,18 @@ func classifyMapRange(p *Program, c *Check, mr *mapRange) {
 						continue
 					}
 				}
+				// res = append(res, x) through an address-taken local: a collector kept in memory
+				if a, ok := x.Addr.(*ssa.Alloc); ok && !mr.Loop[a.Block()] {
+					if call, ok := x.Val.(*ssa.Call); ok {
+						if b, isB := call.Call.Value.(*ssa.Builtin); isB && b.Name() == "append" {
+							if ld, isLd := call.Call.Args[0].(*ssa.UnOp); isLd && ld.Op == token.MUL && ld.X == a {
+								collectors = append(collectors, a)
+								class["S"] = true
+								continue
+							}
+						}
+					}
+				}
 				roots := rootsOf(x.Addr)
 				for _, r := range roots {
 					if r.Kind == RFresh {
